@@ -55,9 +55,25 @@ def minAbsNonzero (ds : List α) : Option α :=
   | [] => none
   | a :: r => some (r.foldl (fun m x => if x < m then x else m) a)
 
-/-- `(dx, dy)` as extracted from successive cell centres -/
+/-- interpretation of the generated difference-vector expressions on the list of cell centres -/
+def evalV (centres : List (α × α)) : VExpr → List α
+  | .diffCol 0 => diffs (centres.map (·.1))
+  | .diffCol _ => diffs (centres.map (·.2))
+  | .nonzero v => (evalV centres v).filter fun d => !(d == 0)
+  | .abs v => (evalV centres v).map absA
+
+/-- `np.min` / `np.max` of a vector; `none` = `ValueError` (zero-size array) -/
+def evalS (centres : List (α × α)) : SExpr → Option α
+  | .min v => match evalV centres v with
+    | [] => none
+    | a :: r => some (r.foldl (fun m x => if x < m then x else m) a)
+  | .max v => match evalV centres v with
+    | [] => none
+    | a :: r => some (r.foldl (fun m x => if m < x then x else m) a)
+
+/-- `(dx, dy)` as the generated `stepDx`, `stepDy` extract them from the successive cell centres -/
 def extractSteps (centres : List (α × α)) : Option (α × α) :=
-  match minAbsNonzero (diffs (centres.map (·.1))), minAbsNonzero (diffs (centres.map (·.2))) with
+  match evalS centres stepDx, evalS centres stepDy with
   | some dx, some dy => some (dx, dy)
   | _, _ => none
 
